@@ -35,6 +35,9 @@ def LTRB.transform (r : LTRB α) (ts : Transform α) : LTRB α :=
 structure ChildBox (α : Type) where
   box : LTRB α
   groupTs : Option (Transform α)
+  /-- `false` for a group with nothing in it (no shape at any depth, no filter): its boxes are placeholders at
+      the origin and take no part in the parent's boxes (fix 2b03884) -/
+  hasBox : Bool := true
 
 /-- the box a child contributes to its parent: a group's box is mapped by the group's transform -/
 def ChildBox.contrib (c : ChildBox α) : LTRB α :=
@@ -44,7 +47,7 @@ def ChildBox.contrib (c : ChildBox α) : LTRB α :=
 
 /-- the object bounding box of a group: children contributions accumulated from the sentinel -/
 def groupBox (m : α) (children : List (ChildBox α)) : LTRB α :=
-  children.foldl (fun acc c => acc.expand c.contrib) (LTRB.sentinel m)
+  children.foldl (fun acc c => if c.hasBox then acc.expand c.contrib else acc) (LTRB.sentinel m)
 
 /-- the absolute transform of a node: the ancestors' transforms (outermost first) concatenated
     with `pre_concat`, starting from the root transform -/
